@@ -1,4 +1,5 @@
 import OasisProofs.Helpers.RegistryAuth
+import OasisProofs.Helpers.RegistryKeys
 import OasisProofs.Helpers.RegistrySteps
 import Generated.RegistrySetNode
 /-
@@ -412,16 +413,92 @@ theorem extra_signature_accepted_when_id_is_subkey :
     (regNode .removalsFirst s 4 { node := n, signers := [4, 15, 18, 17], sigValid := true }).2 = .invalidArgument "signatures" := by
   decide
 
-/-- Sub-key uniqueness does not extend to node identity keys: a node may register a sub-key that is
-the *identity* key of another registered node (identity keys are not in the key map), so under the
-literal reading "no public key (node, consensus, P2P, TLS or VRF) is associated with two registered
-nodes" key 5 below is associated with nodes 5 and 4.  Both registrations need a signature by key 5. -/
+/-! ### the uniqueness clause with identity keys (known finding `key-shared-node-id-as-subkey`) -/
+
+/-- `invStrongB` — the predicate the harness evaluates on the real state — is `invB` plus the
+uniqueness clause at the strength of the property text: the key sets {id, consensus, P2P, TLS, VRF} of
+two different registered nodes are disjoint. -/
+theorem invStrongB_spec (s : State) : invStrongB s = true ↔ InvL s ∧ KeysDisjoint s := by
+  unfold invStrongB
+  rw [Bool.and_eq_true, invB_iff, allKeysUniqueB_iff]
+
+/-- What the code does maintain about key sharing: two different registered nodes can share a key only
+as identity key of the one and sub-key of the other (never identity/identity, never sub-key/sub-key). -/
+theorem shared_key_is_id_vs_subkey (s : State) (h : invB s = true) (i j : Key) (n m : Node)
+    (hn : s.nodes.get i = some n) (hm : s.nodes.get j = some m) (hij : i ≠ j) (k : Key)
+    (hkn : k ∈ allKeys n) (hkm : k ∈ allKeys m) :
+    (k = n.id ∧ k ∈ subKeys m) ∨ (k ∈ subKeys n ∧ k = m.id) :=
+  shared_key_shape ((invB_iff s).1 h).toIndexInv i j n m hn hm hij k hkn hkm
+
+def k1NodeA : Node := { id := 5, entity := 1, cons := 20, p2p := 21, tls := 22, vrf := 23, expiration := 3, roles := 8, runtimes := [] }
+/-- node 4 with P2P key 5 = identity key of node 5 -/
+def k1NodeB : Node := { id := 4, entity := 1, cons := 9, p2p := 5, tls := 11, vrf := 12, expiration := 3, roles := 8, runtimes := [] }
+/-- direction 1: the identity key of a registered node is accepted as a sub-key of another node -/
+def k1History1 : List Op :=
+  [ .regEntity 1 { id := 1, nodes := [4, 5], signer := 1, sigValid := true },
+    .regNode 5 (signedBy k1NodeA), .regNode 4 (signedBy k1NodeB) ]
+/-- direction 2: a new node whose identity key is a sub-key (P2P key 10) of a registered node -/
+def k1History2 : List Op :=
+  [ .regEntity 1 { id := 1, nodes := [4, 10], signer := 1, sigValid := true },
+    .regNode 4 (signedBy f2Node), .regNode 10 (signedBy { k1NodeA with id := 10 }) ]
+
+/-- Sub-key uniqueness does not extend to node identity keys (identity keys are not in the key map, so
+`VerifyRegisterNodeArgs` sees neither collision): all registrations of both histories succeed, `invB`
+holds, and key 5 (resp. 10) is the identity key of one registered node and the P2P key of another.
+Replayed on the real code by corpus/C17/k1-node-id-as-subkey.txt. -/
 theorem id_key_may_be_subkey_of_other_node :
-    let a : Node := { id := 5, entity := 1, cons := 20, p2p := 21, tls := 22, vrf := 23, expiration := 3, roles := 8, runtimes := [] }
-    let b : Node := { id := 4, entity := 1, cons := 9, p2p := 5, tls := 11, vrf := 12, expiration := 3, roles := 8, runtimes := [] }
-    let s := run .removalsFirst (init f2Params) [cornerEntity, .regNode 5 (signedBy a), .regNode 4 (signedBy b)]
-    s.nodes.get 5 = some a ∧ s.nodes.get 4 = some b ∧ invB s = true ∧ subKeysUniqueB s = true ∧ allKeysUniqueB s = false := by
+    results codeOrder (init f2Params) k1History1 = [.ok, .ok, .ok] ∧
+    results codeOrder (init f2Params) k1History2 = [.ok, .ok, .ok] ∧
+    invB (run codeOrder (init f2Params) k1History1) = true ∧
+    invB (run codeOrder (init f2Params) k1History2) = true ∧
+    allKeysUniqueB (run codeOrder (init f2Params) k1History1) = false ∧
+    allKeysUniqueB (run codeOrder (init f2Params) k1History2) = false := by
   decide
+
+/-- **The uniqueness clause of the property text, read with identity keys, is not an invariant of the
+registry** (negation of the full-strength statement; the weaker `inv_reachable` is what holds). -/
+theorem key_uniqueness_incl_identity_fails :
+    ¬ ∀ (p : Params) (ops : List Op), invStrongB (run codeOrder (init p) ops) = true := by
+  intro h
+  have := h f2Params k1History1
+  revert this
+  decide
+
+/-- The operation does not create an identity-key / sub-key collision across nodes (`NoIdClash`) for
+any operation of the history. -/
+def ClashFree (s : State) : List Op → Prop
+  | [] => True
+  | op :: ops => NoIdClash s op ∧ ClashFree (step codeOrder s op).1 ops
+
+instance decClashFree : (s : State) → (ops : List Op) → Decidable (ClashFree s ops)
+  | _, [] => isTrue trivial
+  | s, op :: ops => by
+    simp only [ClashFree]
+    have := decClashFree (step codeOrder s op).1 ops
+    infer_instance
+
+/-- Exact boundary of the finding: every operation preserves the full-strength clause unless it is a
+node registration that itself uses another registered node's identity key as a sub-key, or whose
+identity key is another node's sub-key. -/
+theorem strong_inv_step_partial (s : State) (op : Op) (h : Inv s) (hd : KeysDisjoint s)
+    (hc : NoIdClash s op) : KeysDisjoint (step codeOrder s op).1 :=
+  keysDisjoint_step codeOrder s op h hd hc
+
+/-- Partial: the full-strength invariant holds for the histories without such registrations. -/
+theorem strong_inv_reachable_partial (p : Params) (ops : List Op) (hc : ClashFree (init p) ops) :
+    invStrongB (run codeOrder (init p) ops) = true := by
+  have key : ∀ (s : State) (ops : List Op), Inv s → KeysDisjoint s → ClashFree s ops →
+      Inv (run codeOrder s ops) ∧ KeysDisjoint (run codeOrder s ops) := by
+    intro s ops
+    induction ops generalizing s with
+    | nil => intro h hd _; exact ⟨h, hd⟩
+    | cons op ops ih =>
+      intro h hd hcf
+      exact ih _ (inv_step s op h) (keysDisjoint_step codeOrder s op h hd hcf.1) hcf.2
+  have hd0 : KeysDisjoint (init p) := by
+    intro i j n m hn; simp [init] at hn
+  obtain ⟨hI, hD⟩ := key (init p) ops (inv_init p) hd0 hc
+  exact (invStrongB_spec _).2 ⟨hI.toInvL, hD⟩
 
 /-! ### non-vacuity -/
 
@@ -440,6 +517,10 @@ def demoHistory : List Op :=
     .regRuntime (.ent 1) { id := 1, entity := 1, gov := .runtime, kind := .compute, suspended := false } ]
 
 example : SafeHist (init f2Params) demoHistory := by decide
+example : ClashFree (init f2Params) demoHistory := by decide
+example : invStrongB (run codeOrder (init f2Params) demoHistory) = true :=
+  strong_inv_reachable_partial f2Params demoHistory (by decide)
+example : ¬ ClashFree (init f2Params) k1History1 := by decide
 example : ((run .interleaved (init f2Params) demoHistory).nodes.keys.length, (run .interleaved (init f2Params) demoHistory).entities.keys) = (2, [1]) := by decide
 example : invB (run .interleaved (init f2Params) demoHistory) = true :=
   inv_reachable_interleaved_partial f2Params demoHistory (by decide)
